@@ -15,9 +15,13 @@ VARIABLES l,      \* index of the current log line
           sdone,  \* slots whose closing barrier ping was applied
           gone,   \* slots whose client closed (nothing more is read on them)
           kicked, \* slots the daemon closed (expected: the client saw EOF)
-          devs    \* names of the known-defect deviations that were needed to explain the trace
+          devs,   \* names of the known-defect deviations that were needed to explain the trace
+          skipd,  \* slots some of whose written messages the daemon never read (it had closed the connection)
+          carry   \* [Slot -> Seq of groups] staged for a client after its closing barrier ping of this round was
+                  \* served: the client reads them at the beginning of the next round
 
-tvars == <<l, pos, cnt, sdone, gone, kicked, devs>>
+tvars == <<l, pos, cnt, sdone, gone, kicked, devs, skipd, carry>>
+NoCarry == [s \in Slot |-> <<>>]
 \* deviations tolerated in this run: one JSON object {"dev": name} per line of the file named by VERIF_DEVS
 DevSet == LET d == ndJsonDeserialize(IOEnv.VERIF_DEVS) IN {d[i].dev : i \in 1..Len(d)}
 Plain(A) == A /\ UNCHANGED devs
@@ -27,14 +31,19 @@ IsRound == l <= Len(Log) /\ Ev.e = "Round"
 
 MkCfg(c) == [maxNames |-> c.maxNames, maxMatch |-> c.maxMatch, maxReplies |-> c.maxReplies,
              maxCompleted |-> c.maxCompleted, maxPerUser |-> c.maxPerUser, busUid |-> c.busUid,
-             policy |-> c.policy]
+             policy |-> c.policy, epoch |-> 2]
 
 ZeroPos == [s \in Slot |-> 0]
+\* the known-defect deviation PolicyPruning is a property of the whole run of one daemon: chosen at Reset
+PolicyChoices(p) == IF p.kind = "rules" /\ "PolicyPruning" \in DevSet THEN {p, [p EXCEPT !.prune = TRUE]} ELSE {p}
+PrunedDev(p) == IF p.kind = "rules" /\ p.prune THEN {"PolicyPruning"} ELSE {}
 
 TInit ==
   /\ l = 1 /\ Len(Log) >= 1 /\ Log[1].e = "Reset"
-  /\ cfg = MkCfg(Log[1].cfg) /\ Init0
-  /\ pos = ZeroPos /\ cnt = ZeroPos /\ sdone = {} /\ gone = {} /\ kicked = {} /\ devs = {}
+  /\ \E p \in PolicyChoices(Log[1].cfg.policy) :
+        /\ cfg = [MkCfg(Log[1].cfg) EXCEPT !.policy = p] /\ devs = PrunedDev(p)
+  /\ Init0
+  /\ pos = ZeroPos /\ cnt = ZeroPos /\ sdone = {} /\ gone = {} /\ kicked = {} /\ skipd = {} /\ carry = NoCarry
   /\ TLCSet(1, 0)
 
 \* ---- comparing an observed message with an expected one
@@ -71,7 +80,7 @@ GroupFor(o, r) == LET sel == SelectSeq(o, LAMBDA e : e.to = r) IN [i \in 1..Len(
 \* after a Bus action: every client that is still reading must have observed exactly what was staged for it
 Debug == IOEnv.VERIF_DEBUG = "1"
 ExplainOK(g) ==
-  \A r \in Slot : r \notin g =>
+  \A r \in Slot : r \notin g /\ r \notin sdone =>
         LET grp == GroupFor(out', r) IN
         /\ cnt[r] + Len(grp) <= Len(Ev.obs[r])
         /\ GroupMatch(SubSeq(Ev.obs[r], cnt[r] + 1, cnt[r] + Len(grp)), grp)
@@ -80,14 +89,34 @@ Explain(g) ==
      \/ /\ Debug
         /\ PrintT(<<"MISMATCH", ToJson([l |-> l, pos |-> pos, cnt |-> cnt, out |-> out'])>>)
         /\ FALSE
-  /\ cnt' = [r \in Slot |-> IF r \in g THEN cnt[r] ELSE cnt[r] + Len(GroupFor(out', r))]
+  /\ cnt' = [r \in Slot |-> IF r \in g \/ r \in sdone THEN cnt[r] ELSE cnt[r] + Len(GroupFor(out', r))]
+  /\ carry' = [r \in Slot |-> IF r \in sdone /\ r \notin g /\ GroupFor(out', r) # <<>>
+                               THEN Append(carry[r], GroupFor(out', r)) ELSE carry[r]]
+
+\* carried groups against the head of the next round's observations
+RECURSIVE CarryMatch(_,_,_,_)
+CarryMatch(ob, start, groups, i) ==
+  IF i > Len(groups) THEN TRUE
+  ELSE /\ start + Len(groups[i]) <= Len(ob)
+       /\ GroupMatch(SubSeq(ob, start + 1, start + Len(groups[i])), groups[i])
+       /\ CarryMatch(ob, start + Len(groups[i]), groups, i + 1)
+RECURSIVE CarryLen(_,_)
+CarryLen(groups, i) == IF i > Len(groups) THEN 0 ELSE Len(groups[i]) + CarryLen(groups, i + 1)
 
 \* ---- abstract message of a "send" op
 OpMsg(op) == Msg(op.ty, <<>>, op.dst, op.ser, op.rs, op.path, op.ifc, op.mem, op.err, op.sig, op.args, op.fl, 0, "exact")
 
+\* a client the daemon closed may never see the reply to its Hello although the Hello was processed: the name it
+\* got is then one of those announced to the others in this round
+AllObs == UNION {{Ev.obs[r][i] : i \in 1..Len(Ev.obs[r])} : r \in Slot}
+AnnouncedUniques == {m.args[1].v : m \in {x \in AllObs : /\ x.mem = S_NameOwnerChanged /\ x.snd = BUS /\ Len(x.args) = 3
+                                                          /\ x.args[2].v = <<>> /\ x.args[1].v # <<>>
+                                                          /\ x.args[1].v[1] = cColon}}
+HelloNames(op) == IF op.got # <<>> THEN {op.got} ELSE AnnouncedUniques \cup {<<>>}
+
 Apply(s, op) ==
   CASE op.k = "connect" -> Plain(Connect(s, op.uid))
-    [] op.k = "hello" -> Plain(Hello(s, op.ser, op.fl, op.got))
+    [] op.k = "hello" -> \E nw \in HelloNames(op) : Plain(Hello(s, op.ser, op.fl, nw))
     [] op.k = "req" -> Plain(RequestName(s, op.ser, op.fl, op.n, op.f))
     [] op.k = "rel" -> Plain(ReleaseName(s, op.ser, op.fl, op.n))
     [] op.k = "query" -> Plain(Query(s, op.ser, op.fl, op.q, op.n))
@@ -98,66 +127,102 @@ Apply(s, op) ==
     [] op.k = "send" -> \/ Plain(IF op.dst = BUS THEN DriverOther(s, OpMsg(op)) ELSE Send(s, OpMsg(op)))
                         \/ Dev("LocalReplyUnstamped", Dev_LocalReplyUnstamped(s, OpMsg(op), op.fsnd))
     [] op.k = "close" -> Plain(PingAndClose(s, op.ser))
+    [] op.k = "big" -> Plain(Corrupt(s))
+
+\* Partial-order reduction (sound): a barrier Ping changes nothing and its answer does not depend on the state,
+\* so if the next thing a client read is the answer to its own next Ping, serving that Ping now loses nothing.
+\* When such clients exist only the smallest of them takes a step.
+PingReady(s) ==
+  /\ pos[s] < Len(Ev.ops[s]) /\ s \notin skipd /\ s \notin gone \cup kicked /\ cst[s] = "active" /\ ~dying[s]
+  /\ Ev.ops[s][pos[s] + 1].k = "ping"
+  /\ cnt[s] < Len(Ev.obs[s])
+  /\ LET o == Ev.obs[s][cnt[s] + 1] IN o.ty = 2 /\ o.snd = BUS /\ o.rs = Ev.ops[s][pos[s] + 1].ser
+  /\ \A r \in Slot : cst[r] # "monitor" /\ \A i \in 1..Len(rules[r]) : ~rules[r][i].eav
+ReadySet == {s \in Slot : PingReady(s)}
+MayStep(s) == IF ReadySet = {} THEN TRUE ELSE s = CHOOSE x \in ReadySet : \A y \in ReadySet : x <= y
 
 TStep(s) ==
-  /\ IsRound /\ pos[s] < Len(Ev.ops[s])
+  /\ IsRound /\ pos[s] < Len(Ev.ops[s]) /\ s \notin skipd /\ MayStep(s)
   /\ LET op == Ev.ops[s][pos[s] + 1] IN
      /\ Apply(s, op)
      /\ pos' = [pos EXCEPT ![s] = @ + 1]
      /\ gone' = IF op.k = "close" THEN gone \cup {s} ELSE IF op.k = "connect" THEN gone \ {s} ELSE gone
      /\ kicked' = (IF op.k = "connect" THEN kicked \ {s} ELSE kicked)
                   \cup {x \in Slot : dying'[x] /\ ~dying[x] /\ ~(x = s /\ op.k = "close")}
-     /\ Explain(gone')
+     /\ Explain(gone' \cup kicked')
+     /\ skipd' = IF op.k = "connect" THEN skipd \ {s} ELSE skipd
   /\ UNCHANGED <<l, sdone>>
+
+\* whatever a client writes after the daemon has closed its connection is never read
+TSkip(s) ==
+  /\ IsRound /\ pos[s] < Len(Ev.ops[s])
+  /\ (dying[s] \/ cst[s] = "absent") /\ (s \in kicked \/ s \in gone)
+  /\ Ev.ops[s][pos[s] + 1].k # "connect"
+  /\ pos' = [pos EXCEPT ![s] = @ + 1]
+  /\ skipd' = skipd \cup {s}
+  /\ UNCHANGED vars /\ UNCHANGED <<l, cnt, sdone, gone, kicked, devs, carry>>
 
 AllOpsDone == \A s \in Slot : pos[s] = Len(Ev.ops[s])
 SyncSlots == {Ev.sync[i].s : i \in 1..Len(Ev.sync)}
 SyncSer(s) == (CHOOSE i \in 1..Len(Ev.sync) : Ev.sync[i].s = s)
+\* the driver does the closing pings one client after the other, in increasing slot order
 TSync(s) ==
-  /\ IsRound /\ AllOpsDone /\ s \in SyncSlots \ sdone
+  /\ IsRound /\ AllOpsDone /\ s \in SyncSlots \ sdone /\ \A x \in SyncSlots \ sdone : s <= x
   /\ Query(s, Ev.sync[SyncSer(s)].ser, 0, "ping", <<>>)
   /\ sdone' = sdone \cup {s}
-  /\ Explain(gone)
-  /\ UNCHANGED <<l, pos, gone, kicked, devs>>
+  /\ Explain(gone \cup kicked)
+  /\ UNCHANGED <<l, pos, gone, kicked, devs, skipd>>
 
 TDrop(s) ==
   /\ IsRound
   /\ \E order \in [1..Cardinality(NamesOf(queue, s)) -> NamesOf(queue, s)] : Drop(s, order)
-  /\ Explain(gone)
-  /\ UNCHANGED <<l, pos, sdone, gone, kicked, devs>>
+  /\ Explain(gone \cup kicked)
+  /\ UNCHANGED <<l, pos, sdone, gone, kicked, devs, skipd>>
 
+\* timing rules (one-sided): a slot whose callee is still there may expire only if it was recorded in a round that
+\* began at least reply_timeout ago (Ev.expMay = last such round, 0 = none) ...
 TExpire(i) ==
-  /\ IsRound /\ i \in 1..Len(pend) /\ (pend[i].callee = NoSlot \/ Ev.mayExpire)
+  /\ IsRound /\ i \in 1..Len(pend) /\ (pend[i].callee = NoSlot \/ pend[i].born <= Ev.expMay)
   /\ ExpirePending(i)
-  /\ Explain(gone)
-  /\ UNCHANGED <<l, pos, sdone, gone, kicked, devs>>
+  /\ Explain(gone \cup kicked)
+  /\ UNCHANGED <<l, pos, sdone, gone, kicked, devs, skipd>>
 
 \* end of the round: everything read has been explained, every EOF seen by a client is one the model predicts
 EofSet == {Ev.eof[i] : i \in 1..Len(Ev.eof)}
 TEnd ==
   /\ IsRound /\ AllOpsDone /\ sdone = SyncSlots
-  /\ \A r \in Slot : r \notin gone => cnt[r] = Len(Ev.obs[r])
-  /\ EofSet = kicked
-  /\ l' = l + 1 /\ pos' = ZeroPos /\ cnt' = ZeroPos /\ sdone' = {}
+  /\ \A r \in Slot : r \notin gone \cup kicked => cnt[r] = Len(Ev.obs[r])
+  /\ EofSet = kicked /\ Ev.stall = <<>>
+  \* ... and must have expired if it was recorded in a round that ended long ago (Ev.expMust), or if its callee
+  \* went away in an earlier round ("expires at once")
+  /\ \A i \in 1..Len(pend) : pend[i].born > Ev.expMust /\ (pend[i].callee = NoSlot => pend[i].orph = cfg.epoch)
+  /\ l' = l + 1 /\ pos' = ZeroPos /\ sdone' = {}
+  /\ IF l + 1 <= Len(Log) /\ Log[l + 1].e = "Round"
+     THEN /\ \A r \in Slot : r \notin gone \cup kicked => CarryMatch(Log[l + 1].obs[r], 0, carry[r], 1)
+          /\ cnt' = [r \in Slot |-> IF r \in gone \cup kicked THEN 0 ELSE CarryLen(carry[r], 1)]
+     ELSE cnt' = ZeroPos
+  /\ carry' = NoCarry
   /\ kicked' = {}
   /\ gone' = gone \cup kicked
-  /\ UNCHANGED devs
-  /\ UNCHANGED vars
+  /\ UNCHANGED <<devs, skipd>>
+  /\ cfg' = [cfg EXCEPT !.epoch = @ + 1]
+  /\ UNCHANGED <<cst, dying, uid, uname, everNames, queue, rules, pend, mon, out>>
 
 TReset ==
   /\ l <= Len(Log) /\ Ev.e = "Reset" /\ l > 1
-  /\ cfg' = MkCfg(Ev.cfg)
+  /\ \E p \in PolicyChoices(Ev.cfg.policy) :
+        /\ cfg' = [MkCfg(Ev.cfg) EXCEPT !.policy = p] /\ devs' = devs \cup PrunedDev(p)
   /\ cst' = [s \in Slot |-> "absent"] /\ dying' = [s \in Slot |-> FALSE]
   /\ uid' = [s \in Slot |-> 0] /\ uname' = [s \in Slot |-> <<>>] /\ everNames' = {}
   /\ queue' = <<>> /\ rules' = [s \in Slot |-> <<>>] /\ pend' = <<>> /\ mon' = [s \in Slot |-> <<>>]
   /\ out' = <<>>
-  /\ l' = l + 1 /\ pos' = ZeroPos /\ cnt' = ZeroPos /\ sdone' = {} /\ gone' = {} /\ kicked' = {} /\ UNCHANGED devs
+  /\ l' = l + 1 /\ pos' = ZeroPos /\ cnt' = ZeroPos /\ sdone' = {} /\ gone' = {} /\ kicked' = {} /\ skipd' = {} /\ carry' = NoCarry
 
-TFirst == l = 1 /\ l' = 2 /\ UNCHANGED vars /\ UNCHANGED <<pos, cnt, sdone, gone, kicked, devs>>
+TFirst == l = 1 /\ l' = 2 /\ UNCHANGED vars /\ UNCHANGED <<pos, cnt, sdone, gone, kicked, devs, skipd, carry>>
 
 TNext == \/ TFirst \/ TReset \/ TEnd
-         \/ \E s \in Slot : TStep(s) \/ TSync(s) \/ TDrop(s)
-         \/ \E i \in 1..3 : TExpire(i)
+         \/ \E s \in Slot : TStep(s) \/ TSync(s) \/ TDrop(s) \/ TSkip(s)
+         \/ \E i \in 1..Len(pend) : TExpire(i)
 
 TSpec == TInit /\ [][TNext]_<<vars, tvars>>
 
